@@ -213,4 +213,133 @@ def specOf : List Lin → Option Spec
   | [] => some Spec.empty
   | l :: older => (specOf older).bind (fun s => specStep s l)
 
+/-! ### recorded real histories and their checker (correspondence harness)
+
+An `Event` is one real call through the C ABI, stamped with an invocation ticket (drawn
+before the call) and a response ticket (drawn after it returned) from one global atomic
+counter; tickets are distinct naturals and `inv < res`.
+
+`checkHistory` decides whether a history is linearizable w.r.t. the sequential spec above.
+Handles are unique per create, so the problem decomposes per handle: with the create `C` of
+handle `h`, its frees and its gets, a linearization exists iff there are a point `P` for the
+insert and either no effective remove or a point `Q ≥ P` of the first effective remove, such that
+(points are taken *between* tickets: `x` stands for a point in the gap `(x, x+1)`)
+* `C.inv ≤ P < C.res`;
+* every free is invoked before `P` (it can be linearized before the insert and does nothing)
+  or responds after `Q` (it can be linearized at or after the first effective remove), and some
+  free `f` has `f.inv ≤ Q < f.res` (it *is* that remove);
+* every get that found the object (`ok`, `type_error`) has `P < g.res` and `g.inv ≤ Q`
+  (it fits between insert and remove), and saw exactly `C`'s object and type (`type_error`
+  iff the expected type differs from `C`'s);
+* every get that answered `invalid` has `g.inv ≤ P` (fits before the insert) or `Q < g.res`
+  (fits after the remove).
+All lower bounds on `P` and `Q` are invocation tickets of events of `h`, all upper bounds are
+strict, so if any `(P, Q)` works, rounding both down to the nearest invocation ticket of an event
+of `h` works too: trying those candidates is complete. (`C.res - 1` is tried as well; it is the
+latest possible insert point.) Operations on a handle that no create of the history returned
+must all answer `invalid`.
+-/
+
+inductive EOp where
+  | create | json | type | use | free
+  deriving DecidableEq, Repr
+
+inductive EResult where
+  | ok | invalid | typeError
+  deriving DecidableEq, Repr
+
+structure Event where
+  thread : Nat
+  op : EOp
+  /-- for `create`: the handle returned; else the handle passed -/
+  handle : Nat
+  /-- for `use`: the type the entry point expects (`none` = plain load, no cast) -/
+  wantTy : Option Nat
+  inv : Nat
+  res : Nat
+  result : EResult
+  /-- `create`: type tag stored; `json`/`type` with `ok`: type tag observed -/
+  ty : Option Nat
+  /-- `create`: object id stored; `json` with `ok`: object id observed -/
+  obj : Option Nat
+  deriving DecidableEq, Repr
+
+def Event.isGet (e : Event) : Bool := e.op == .json || e.op == .type || e.op == .use
+
+/-- the response of get `g` is what a store holding `C`'s object under the handle produces -/
+def presentOk (C g : Event) : Bool :=
+  match g.result with
+  | .ok =>
+    (match g.wantTy with
+      | some T => C.ty == some T
+      | none => true) &&
+    (g.ty == none || g.ty == C.ty) && (g.obj == none || g.obj == C.obj) &&
+    (g.op != .json || g.obj.isSome) && (g.op != .type || g.ty.isSome)
+  | .typeError =>
+    g.op == .use && (match g.wantTy with
+      | some T => C.ty != some T
+      | none => false)
+  | .invalid => false
+
+/-- the conditions listed in the section header, for insert point `p` and first effective remove `q` -/
+def feasible (C : Event) (frees gets : List Event) (p : Nat) (q : Option Nat) : Bool :=
+  decide (C.inv ≤ p) && decide (p < C.res) &&
+  gets.all (fun g => g.result == .invalid || (presentOk C g && decide (p < g.res))) &&
+  match q with
+  | none =>
+    frees.all (fun f => decide (f.inv ≤ p)) &&
+    gets.all (fun g => g.result != .invalid || decide (g.inv ≤ p))
+  | some q =>
+    decide (p ≤ q) &&
+    frees.any (fun f => decide (f.inv ≤ q) && decide (q < f.res)) &&
+    frees.all (fun f => decide (f.inv ≤ p) || decide (q < f.res)) &&
+    gets.all (fun g => if g.result == .invalid then decide (g.inv ≤ p) || decide (q < g.res)
+                       else decide (g.inv ≤ q))
+
+/-- per-handle check for the handle returned by create event `C` -/
+def checkHandle (C : Event) (evs : List Event) : Bool :=
+  let frees := evs.filter (fun e => e.op == .free && e.handle == C.handle)
+  let gets := evs.filter (fun e => e.isGet && e.handle == C.handle)
+  let cands := (C :: frees ++ gets).map (·.inv)
+  let ps := (C.res - 1) :: cands
+  ps.any (fun p => feasible C frees gets p none || cands.any (fun q => feasible C frees gets p (some q)))
+
+/-- is the recorded history linearizable w.r.t. the sequential store spec? -/
+def checkHistory (evs : List Event) : Bool :=
+  let creates := evs.filter (fun e => e.op == .create)
+  -- tickets
+  evs.all (fun e => decide (e.inv < e.res)) &&
+  -- creates succeed, return non-zero handles, and say what they stored
+  creates.all (fun e => e.result == .ok && e.handle != 0 && e.ty.isSome && e.obj.isSome) &&
+  -- no handle is returned twice
+  decide (creates.map (·.handle)).Nodup &&
+  -- the counter is monotone in real time
+  creates.all (fun a => creates.all (fun b => !decide (a.res < b.inv) || decide (a.handle < b.handle))) &&
+  -- `anoncreds_object_free` cannot fail
+  evs.all (fun e => e.op != .free || e.result == .ok) &&
+  -- operations on handles never returned by a create of this history
+  evs.all (fun e => !e.isGet || creates.any (fun c => c.handle == e.handle) || e.result == .invalid) &&
+  -- per created handle
+  creates.all (fun c => checkHandle c evs)
+
+/-- abstraction of a model record to an event: step `s` becomes invocation ticket `2s` and
+response ticket `2s+1` (so tickets are distinct and `inv < res` even for single-step
+operations). `none` for combinations of operation and response the machine never produces. -/
+def Rec.toEvent (r : Rec) : Option Event :=
+  match r.op, r.result with
+  | .create o, .handle h => some ⟨r.thread, .create, h, none, 2 * r.inv, 2 * r.res + 1, .ok, some o.ty, some o.id⟩
+  | .free h, .unit => some ⟨r.thread, .free, h, none, 2 * r.inv, 2 * r.res + 1, .ok, none, none⟩
+  | .get .json h, .ok o => some ⟨r.thread, .json, h, none, 2 * r.inv, 2 * r.res + 1, .ok, some o.ty, some o.id⟩
+  | .get .typeName h, .ok o => some ⟨r.thread, .type, h, none, 2 * r.inv, 2 * r.res + 1, .ok, some o.ty, none⟩
+  | .get .load h, .ok _ => some ⟨r.thread, .use, h, none, 2 * r.inv, 2 * r.res + 1, .ok, none, none⟩
+  | .get (.useAs T) h, .ok _ => some ⟨r.thread, .use, h, some T, 2 * r.inv, 2 * r.res + 1, .ok, none, none⟩
+  | .get (.useAs T) h, .errType => some ⟨r.thread, .use, h, some T, 2 * r.inv, 2 * r.res + 1, .typeError, none, none⟩
+  | .get .json h, .errInvalid => some ⟨r.thread, .json, h, none, 2 * r.inv, 2 * r.res + 1, .invalid, none, none⟩
+  | .get .typeName h, .errInvalid => some ⟨r.thread, .type, h, none, 2 * r.inv, 2 * r.res + 1, .invalid, none, none⟩
+  | .get .load h, .errInvalid => some ⟨r.thread, .use, h, none, 2 * r.inv, 2 * r.res + 1, .invalid, none, none⟩
+  | .get (.useAs T) h, .errInvalid => some ⟨r.thread, .use, h, some T, 2 * r.inv, 2 * r.res + 1, .invalid, none, none⟩
+  | _, _ => none
+
+def toEvents (hist : List Rec) : List Event := hist.filterMap Rec.toEvent
+
 end AnonModel.Store
